@@ -102,12 +102,15 @@ var resultUnits = map[string]Unit{
 	"bytes.Index":                               UBytes,
 	"github.com/rivo/uniseg.StringWidth":        UCols,
 	"strutil.RealLength":                        UCols,
+	"(*github.com/rivo/uniseg.Graphemes).Width": UCols,
+	"(*uniseg.Graphemes).Width":                 UCols,
 	"term.GetWidth":                             UCols,
 	"golang.org/x/text/width.LookupRune#unused": UUnknown,
 }
 
 // multi-result functions: unit per result index
 var resultUnitsIdx = map[string]map[int]Unit{
+	"strutil.LineSpan":                    {0: UCols}, // x: the column the line ends on (its body is checked like any other in scope)
 	"(*core.Selection).Pos":               {0: URunes, 1: URunes},
 	"unicode/utf8.DecodeRuneInString":     {1: UBytes},
 	"unicode/utf8.DecodeRune":             {1: UBytes},
@@ -450,6 +453,12 @@ func (e *unitEngine) findingsIn(f *ssa.Function) []UnitFinding {
 			}
 		case *ssa.BinOp:
 			switch x.Op {
+			case token.ADD, token.SUB:
+				// adding or subtracting two quantities of different known units is a unit error by itself
+				a, b := e.unitOf(x.X), e.unitOf(x.Y)
+				if a != UUnknown && b != UUnknown && a != b && a != UMixed && b != UMixed {
+					out = append(out, UnitFinding{f, in, "arithmetic", a, b, fmt.Sprintf("%s %s %s", a, x.Op, b)})
+				}
 			case token.LSS, token.LEQ, token.GTR, token.GEQ, token.EQL, token.NEQ:
 				a, b := e.unitOf(x.X), e.unitOf(x.Y)
 				if a != UUnknown && b != UUnknown && a != b && a != UMixed && b != UMixed {
